@@ -170,5 +170,64 @@ func (k checker) runValues(base int) {
 		k.valueMeshCase(r, false)
 		k.valueMeshCase(r, true)
 	}
+	for i, seq := range core.SaveSequences(3) {
+		if c.Mine(base + len(f32Ladder) + i) {
+			k.saveOver(seq)
+		}
+	}
+	c.Bound("e.save_sequences", "every sequence of 1..3 stl.Save calls over meshes of 5, 2 and 0 triangles to one path; the file must equal the in-memory write of the last")
 	c.Bound("d.value_ladder", fmt.Sprintf("%d float32 values, each in every float slot of a record (vertices: whole pipeline; normal: Read->Write) and in every position component of a two-triangle mesh (exact and x(1+2^-25), which must round)", len(f32Ladder)))
+}
+
+// ---- stl.Save over an existing file ---------------------------------------------------------------
+
+const clSave = "writing a mesh to a file yields exactly the 84 + 50*n bytes of that mesh (whatever the path held before)"
+
+func (k checker) saveOver(seq []int) {
+	cs := Case{Kind: "save-over", Recs: seq}
+	sizes := []int{5, 2, 0}
+	mesh := func(it int) modeling.Mesh {
+		n := sizes[it]
+		if n == 0 {
+			return modeling.EmptyMesh(modeling.TriangleTopology)
+		}
+		idx := make([]int, 0, 3*n)
+		pos := make([]vector3.Float64, n+2)
+		for i := range pos {
+			pos[i] = vector3.New(float64(i)+0.5*float64(it), float64(i*i), -float64(i))
+		}
+		for f := 0; f < n; f++ {
+			idx = append(idx, f+2, f, f+1)
+		}
+		return modeling.NewTriangleMesh(idx).SetFloat3Attribute(modeling.PositionAttribute, pos)
+	}
+	scope := "files/save-sequences"
+	k.c.Nontrivial("save-over", fmt.Sprint(seq))
+	var got []byte
+	var err error
+	o := core.Guard(func() {
+		got, err = core.SaveOver(".stl", seq, func(path string, it int) error { return stl.Save(path, mesh(it)) })
+	})
+	class := fmt.Sprintf("saves=%d", len(seq))
+	if o.Panicked || err != nil {
+		k.c.Eval(scope, "save-failure")
+		k.fail("stl.Save", clSave, class, fmt.Sprintf("saves %v: %s %v", seq, o.Msg, err), cs)
+		return
+	}
+	var want bytes.Buffer
+	if err := stl.WriteMesh(&want, mesh(seq[len(seq)-1])); err != nil {
+		k.c.HarnessError("in-memory write failed: %v", err)
+		return
+	}
+	if !bytes.Equal(got, want.Bytes()) {
+		k.c.Eval(scope, "mismatch")
+		k.fail("stl.Save", clSave, class, fmt.Sprintf("after saving meshes of %v triangles to one path the file holds %d bytes, the last mesh alone writes %d", func() (t []int) {
+			for _, i := range seq {
+				t = append(t, sizes[i])
+			}
+			return
+		}(), len(got), want.Len()), cs)
+		return
+	}
+	k.c.Eval(scope, "ok")
 }
